@@ -516,8 +516,14 @@ func (f *Frame) call1(x *ssa.Call, rec *CallRec) AV {
 	callee := common.StaticCallee()
 	if callee == nil {
 		// dynamic call through a function value
-		if fv, ok := f.val(common.Value).(AFunc); ok {
-			callee = fv.fn
+		switch fv := f.val(common.Value).(type) {
+		case AFunc:
+			callee, args = resolveBound(fv, args)
+		case AFuncSet:
+			if rec != nil {
+				rec.dyn = fv
+			}
+			return f.callEach(x, fv, args, key, resT)
 		}
 	}
 	if rec != nil {
@@ -530,6 +536,90 @@ func (f *Frame) call1(x *ssa.Call, rec *CallRec) AV {
 		f.escapeArgs(args)
 		return f.symbolicResult(key, resT)
 	}
+	return f.callWith(x, callee, args, key, resT)
+}
+
+// resolveBound: a method value x.M is the method M applied to the receiver captured when the
+// value was made.
+func resolveBound(fv AFunc, args []AV) (*ssa.Function, []AV) {
+	if fv.recv == nil {
+		return fv.fn, args
+	}
+	for _, b := range fv.fn.Blocks {
+		for _, in := range b.Instrs {
+			if c, ok := in.(*ssa.Call); ok && !c.Common().IsInvoke() {
+				if sc := c.Common().StaticCallee(); sc != nil {
+					return sc, append([]AV{fv.recv}, args...)
+				}
+			}
+		}
+	}
+	return fv.fn, args
+}
+
+// callEach evaluates a call through "one of these functions" once per alternative, under the
+// paths on which that alternative is the value, and merges the results like a phi.
+func (f *Frame) callEach(x *ssa.Call, fs AFuncSet, args []AV, key string, resT types.Type) AV {
+	entry := f.cur
+	var results []AV
+	var outs []DNF
+	for i, alt := range fs.alts {
+		st := f.compress1(dnfAnd(entry, DNF{Conj{atomEQ(affSym(fs.sel), affConst(int64(i)))}}))
+		if len(st) == 0 {
+			continue
+		}
+		f.cur = st
+		callee, a2 := resolveBound(alt, args)
+		results = append(results, f.callWith(x, callee, a2, fmt.Sprintf("%s#alt%d", key, i), resT))
+		outs = append(outs, f.cur)
+	}
+	if len(results) == 0 {
+		f.cur = entry
+		return f.symbolicResult(key, resT)
+	}
+	if len(results) == 1 {
+		f.cur = outs[0]
+		return results[0]
+	}
+	if tup, isTuple := resT.(*types.Tuple); isTuple {
+		mt := make(ATuple, tup.Len())
+		for k := 0; k < tup.Len(); k++ {
+			comp := make([]AV, len(results))
+			for i, r := range results {
+				if rt, ok := r.(ATuple); ok && k < len(rt) {
+					comp[i] = rt[k]
+				} else {
+					comp[i] = f.an.u.symbolic(fmt.Sprintf("%s#alt%d.%d", key, i, k), tup.At(k).Type())
+				}
+			}
+			mt[k] = f.mergedValue(fmt.Sprintf("%s.%d", key, k), tup.At(k).Type(), comp)
+		}
+		var merged DNF
+		for i, r := range results {
+			st := outs[i]
+			if rt, ok := r.(ATuple); ok {
+				for k := range mt {
+					if k < len(rt) {
+						st = f.bindMerged(mt[k], rt[k], st)
+					}
+				}
+			}
+			merged = append(merged, st...)
+		}
+		f.cur = merged
+		return mt
+	}
+	m := f.mergedValue(key, resT, results)
+	var merged DNF
+	for i := range results {
+		merged = append(merged, f.bindMerged(m, results[i], outs[i])...)
+	}
+	f.cur = merged
+	return m
+}
+
+// callWith: the call of a resolved callee.
+func (f *Frame) callWith(x *ssa.Call, callee *ssa.Function, args []AV, key string, resT types.Type) AV {
 	if f.an.onCall != nil {
 		f.an.onCall(f, x, callee, args)
 	}
